@@ -174,6 +174,7 @@ def run_check(prop, harness_name, tier, seed, replay_path=None, selftest=False, 
     families = {}
     describe = {}
     unrepro = {}
+    killed_jobs = []
 
     def replay_candidate(job, params, what):
         """Replay on the real code in both modes, with ulp-neighbours; returns
@@ -199,6 +200,8 @@ def run_check(prop, harness_name, tier, seed, replay_path=None, selftest=False, 
         if res.get("ok"):
             fam["solver_s"] = round(fam["solver_s"] + res["solver_s"], 1)
             fam["unexplored"] += res["unexplored"]
+        if res.get("killed"):
+            killed_jobs.append({"family": job["family"], "args": job["args"], "why": res["killed"]})
         if not res["ok"]:
             agg["jobs_failed"] += 1
             harness_errors.append({"job": job, "error": res["error"], "traceback": res.get("traceback", "")[-1500:]})
@@ -290,7 +293,7 @@ def run_check(prop, harness_name, tier, seed, replay_path=None, selftest=False, 
     def hard_limit(job):
         if hard:
             return hard
-        return 3.0 * (job.get("budget_s") or getattr(H, "JOB_BUDGET", 120)) + 60.0
+        return 1.25 * (job.get("budget_s") or getattr(H, "JOB_BUDGET", 120)) + 60.0
     pl = _pool.Pool(nproc, hard_limit)
     killed = pl.run(jobs, handle, deadline, harness_errors)
     agg["jobs_skipped_budget"] = killed["not_started"]
@@ -352,6 +355,7 @@ def run_check(prop, harness_name, tier, seed, replay_path=None, selftest=False, 
             "pending_paths_unexplored": agg["unexplored"], "jobs": agg["jobs"], "jobs_failed": agg["jobs_failed"],
             "jobs_not_started_wall_budget": agg["jobs_skipped_budget"],
             "jobs_killed_solver_ignored_timeout": agg.get("jobs_killed_solver_hang", 0),
+            "jobs_killed": killed_jobs[:10],
             "witness_mismatch": agg["witness_mismatch"], "witness_not_available": agg["witness_skipped"],
             "witness_mismatch_samples": mismatches[:5],
             "solver_queries": agg["queries"], "solver_s": round(agg["solver_s"], 2), "solver_unknown": agg["unknown"],
